@@ -3,6 +3,7 @@ package main
 import (
 	"fmt"
 	"go/token"
+	"go/types"
 	"strings"
 
 	"golang.org/x/tools/go/ssa"
@@ -68,6 +69,7 @@ func checkC20(r *Run) {
 	r.NotDecided = append(r.NotDecided, "the server-side count of bound fids over histories", "concurrent use of the non-atomic allocator")
 
 	cfile := func(fn *ssa.Function) bool { return p.FileOf(fn.Pos()) == "cfilesys.go" }
+	c20SessionWalkSendsAllNames(r)
 	// (1) fid arguments
 	nCalls := 0
 	for _, fn := range p.FuncsOfPkg("p9p") {
@@ -347,4 +349,37 @@ func c20Create(r *Run) {
 		})
 		r.Floor("entry-fid", n, 1, "fileRef literal in cEnt."+name)
 	}
+}
+
+// The success test in cEnt.Walk compares the number of qids returned with the number of names it asked for; that is
+// only meaningful if the client session puts every one of those names into the Twalk (or refuses the call): a
+// session that sends a prefix makes the server bind newfid after a walk the layer then reports as incomplete.
+func c20SessionWalkSendsAllNames(r *Run) {
+	p := r.P
+	cw := p.Fn("p9p:(*client).Walk")
+	if cw == nil {
+		r.Undecided("walk", "(*client).Walk", token.NoPos, "anchor not found")
+		return
+	}
+	r.SawFn(fnName(cw))
+	var names *ssa.Parameter
+	for _, prm := range cw.Params {
+		if sl, ok := prm.Type().Underlying().(*types.Slice); ok {
+			if b, ok := sl.Elem().Underlying().(*types.Basic); ok && b.Kind() == types.String {
+				names = prm
+			}
+		}
+	}
+	n := 0
+	eachInstr(cw, func(in ssa.Instruction) {
+		a, ok := in.(*ssa.Alloc)
+		if !ok || !isP9P(a.Type(), "MessageTwalk") {
+			return
+		}
+		flds, _, _ := allocFields(a)
+		n++
+		r.Check(names != nil && flds["Wnames"] == ssa.Value(names), "walk", "client.Walk: the Twalk carries exactly the names it was given (all of them, or the call is refused)", in.Pos(),
+			"the request carries something other than the caller's name list (e.g. a truncated prefix): the server completes and binds a walk the caller takes for incomplete — the new fid is leaked")
+	})
+	r.Floor("walk", n, 1, "Twalk literal in client.Walk")
 }
